@@ -46,6 +46,7 @@ MIN_REACH = {
     "harvester_reaps_naming_a_merge_policy": {"quick": 30, "thorough": 100},
     "sampler_crops_whose_table_does_not_exist_yet": {"quick": 30, "thorough": 100},
     "harvester_crops_whose_results_are_all_nan": {"quick": 8, "thorough": 30},
+    "harvester_crops_whose_harvester_is_chunked": {"quick": 25, "thorough": 250},
 }
 TIME_BUDGET = {"quick": 400, "thorough": 3400}
 
@@ -301,7 +302,12 @@ def run_case(ctx, case):
                     farmer = runner
                 elif kind == "harvester":
                     data_file = os.path.join(tmp, "hdata.h5")
-                    farmer = xyzpy.Harvester(runner, data_name=data_file)
+                    hkw = {}
+                    if case["idx"] % 4 == 2:
+                        # the harvester opens its file in chunks (lazily, through dask): the same promises
+                        hkw["chunks"] = {"a": 2}
+                        ctx.count("harvester_crops_whose_harvester_is_chunked")
+                    farmer = xyzpy.Harvester(runner, data_name=data_file, **hkw)
                     if case["idx"] % 3 == 0 and fail != "wrong_descr":
                         # the harvester already holds its dataset in memory (it harvested a point itself) BEFORE the other
                         # session writes: conflicts must be judged against the file as it is at reap time
